@@ -90,6 +90,27 @@ class ListGen:
         return g
 
 
+class BufferGen:
+    """replayable generator that owns ONE game object: the k-th call refills that object IN PLACE with
+    games[k % len] and returns the very same object (a `GameGenerator` only has to return a game, not a new
+    object): whoever tells "same game as before" by object identity, or keeps a reference instead of the values
+    it needs, reads stale / overwritten data"""
+
+    def __init__(self, n, tables):
+        self.n = n
+        self.tables = tables
+        self.k = 0
+        self.buffer = None
+
+    def __call__(self, *_):
+        from incomplete_cooperative.game import IncompleteCooperativeGame
+        if self.buffer is None:
+            self.buffer = IncompleteCooperativeGame(self.n)
+        self.buffer.set_values(np.array(self.tables[self.k % len(self.tables)], dtype=float))
+        self.k += 1
+        return self.buffer
+
+
 class DrawGen:
     """hidden game determined by (seed, draw index); `shift` distinguishes private generators"""
 
@@ -442,70 +463,82 @@ def run_c11(tier, budget, rnd) -> StreamResult:
             for s in itertools.combinations(explorable, i):
                 cols[s] = [fresh.gap(t, set(minimal) | set(s)) for t in sampled]
                 script.add(f"srch gt put {gt} {nlist(sorted(set(minimal) | set(s)))} {rlist(cols[s])}", "ok")
-        env = ICG_Gym(ICG(n, BOUNDS[cls]), ListGen(n, tables), minimal_game_coalitions(n), fresh.gapf,
-                      done_after_n_actions=steps)
-        try:
-            with warnings.catch_warnings():
-                warnings.simplefilter("ignore")
-                rows, acts = get_best_exploitability(env, steps, reps, fresh.gapf, processes=procs)
-        except Exception as e:
-            res.violation(f"get_best_exploitability raised {type(e).__name__} on an in-domain call", ctx, key="best:raised")
-            continue
-        res.evaluations += len(cols)
-        res.count(f"best:n{n}s{steps}r{reps}")
-        rows = [[float(x) for x in r] for r in rows]
-        acts = [[int(a) for a in r] for r in acts]
         by_size = {}
         for s, c in cols.items():
             by_size.setdefault(len(s), []).append((s, c))
         robust = all(order_consistent([c for _, c in v]) for v in by_size.values())
-        if robust:
-            script.add(f"srch best {gt} {nlist(minimal)} {steps} {procs}",
-                       f"{rows_str(rows)}#{'|'.join(nlist(a) for a in acts)}", ctx)
-        else:
-            res.count("skipped:float-near-tie")
-        curve = []
-        for size in range(steps + 1):
-            cands = by_size.get(size)
-            if not cands:
-                res.count("best:placeholder-row")     # domain note: −1 placeholder, not a violation
+        ctx_base = ctx
+        # the same replayable games from two legal generators: a new game object per call, and ONE buffer
+        # object refilled in place and returned again and again (row j must be the gaps of the j-th DRAWN game)
+        for genkind, gencls in (("new object per call", ListGen), ("one buffer object refilled in place", BufferGen)):
+            if not budget.ok():
+                break
+            ctx = dict(ctx_base, generator=genkind)
+            env = ICG_Gym(ICG(n, BOUNDS[cls]), gencls(n, tables), minimal_game_coalitions(n), fresh.gapf,
+                          done_after_n_actions=steps)
+            try:
+                with warnings.catch_warnings():
+                    warnings.simplefilter("ignore")
+                    rows, acts = get_best_exploitability(env, steps, reps, fresh.gapf, processes=procs)
+            except Exception as e:
+                res.violation(f"get_best_exploitability raised {type(e).__name__} on an in-domain call", ctx, key="best:raised")
                 continue
-            means = [float(np.mean(np.array(c))) for _, c in cands]
-            mn = min(means)
-            first = means.index(mn)
-            got_mean = float(np.mean(np.array(rows[size])))
-            curve.append(got_mean)
-            c2 = dict(ctx, size=size, reported_set=acts[size], reported_row=rows[size])
-            if len(set(acts[size])) != size or not set(acts[size]) <= set(explorable):
-                res.violation("best-states reports a set that is not a size-s set of explorable coalitions", c2, key="best:set")
-            elif rows[size] != cols[tuple(sorted(acts[size]))]:
-                res.violation("best-states row ≠ the gaps of the reported set on the sampled games", c2, key="best:row")
-            elif got_mean != mn:
-                res.violation("best-states does not report the minimum mean gap of its size",
-                              dict(c2, minimum=mn, attained_by=list(cands[first][0])), key="best:argmin")
-            elif tuple(sorted(acts[size])) != cands[first][0] and robust:
-                res.violation("best-states does not report the first minimiser in enumeration order",
-                              dict(c2, first=list(cands[first][0])), key="best:first")
-        if in_class and any(b > a + TOL * max(1.0, abs(a)) for a, b in zip(curve, curve[1:])):
-            res.violation("best-states curve increases on in-class games", dict(ctx, curve=curve), key="best:mono")
+            res.evaluations += len(cols)
+            res.count(f"best:n{n}s{steps}r{reps}")
+            res.count(f"best:generator:{genkind}")
+            rows = [[float(x) for x in r] for r in rows]
+            acts = [[int(a) for a in r] for r in acts]
+            if robust:
+                script.add(f"srch best {gt} {nlist(minimal)} {steps} {procs}",
+                           f"{rows_str(rows)}#{'|'.join(nlist(a) for a in acts)}", ctx)
+            else:
+                res.count("skipped:float-near-tie")
+            curve = []
+            for size in range(steps + 1):
+                cands = by_size.get(size)
+                if not cands:
+                    res.count("best:placeholder-row")     # domain note: −1 placeholder, not a violation
+                    continue
+                means = [float(np.mean(np.array(c))) for _, c in cands]
+                mn = min(means)
+                first = means.index(mn)
+                got_mean = float(np.mean(np.array(rows[size])))
+                curve.append(got_mean)
+                c2 = dict(ctx, size=size, reported_set=acts[size], reported_row=rows[size])
+                if len(set(acts[size])) != size or not set(acts[size]) <= set(explorable):
+                    res.violation("best-states reports a set that is not a size-s set of explorable coalitions", c2, key="best:set")
+                elif rows[size] != cols[tuple(sorted(acts[size]))]:
+                    res.violation("best-states row ≠ the gaps of the reported set on the sampled games", c2, key="best:row")
+                elif got_mean != mn:
+                    res.violation("best-states does not report the minimum mean gap of its size",
+                                  dict(c2, minimum=mn, attained_by=list(cands[first][0])), key="best:argmin")
+                elif tuple(sorted(acts[size])) != cands[first][0] and robust:
+                    res.violation("best-states does not report the first minimiser in enumeration order",
+                                  dict(c2, first=list(cands[first][0])), key="best:first")
+            if in_class and any(b > a + TOL * max(1.0, abs(a)) for a, b in zip(curve, curve[1:])):
+                res.violation("best-states curve increases on in-class games", dict(ctx, curve=curve), key="best:mono")
+            # sampled search itself (enumeration + matrix) for one more process count
+            g = ICG(n, BOUNDS[cls])
+            ks = [Coalition(c) for c in minimal]
+            g.set_known_values([0.0] * len(ks), ks)
+            try:
+                with warnings.catch_warnings():
+                    warnings.simplefilter("ignore")
+                    lg = gencls(n, sampled)
+                    sa, sv = sample_exploitabilities_of_action_sequences(g, lambda _n: lg(), fresh.gapf, samples=reps,
+                                                                         max_size=steps, processes=3)
+                ok = [tuple(c.id for c in s) for s in sa] == list(cols) and \
+                    all([float(x) for x in sv[:, i]] == cols[s] for i, s in enumerate(cols))
+                if not ok:
+                    bad = next(([j, list(s), float(sv[j, i]), cols[s][j]] for i, s in enumerate(cols) for j in range(reps)
+                                if i < sv.shape[1] and j < sv.shape[0] and float(sv[j, i]) != cols[s][j]), None)
+                    res.violation("sampled exhaustive search: matrix ≠ fresh gaps of (sampled game, set)",
+                                  dict(ctx, generator_calls=lg.k, first_wrong_sample_set_reported_expected=bad), key="search:sample")
+            except Exception as e:
+                res.violation(f"sample_exploitabilities_of_action_sequences raised {type(e).__name__}", ctx, key="search:raised")
+        ctx = ctx_base
         if len({float(np.mean(np.array(c))) for c in cols.values()}) >= 3:
             res.nontrivial.add(("best", n, steps, reps, cls, gapname, tuple(map(tuple, sampled))))
-        # sampled search itself (enumeration + matrix) for one more process count
-        g = ICG(n, BOUNDS[cls])
-        ks = [Coalition(c) for c in minimal]
-        g.set_known_values([0.0] * len(ks), ks)
-        try:
-            with warnings.catch_warnings():
-                warnings.simplefilter("ignore")
-                lg = ListGen(n, sampled)
-                sa, sv = sample_exploitabilities_of_action_sequences(g, lambda _n: lg(), fresh.gapf, samples=reps,
-                                                                     max_size=steps, processes=3)
-            ok = [tuple(c.id for c in s) for s in sa] == list(cols) and \
-                all([float(x) for x in sv[:, i]] == cols[s] for i, s in enumerate(cols))
-            if not ok:
-                res.violation("sampled exhaustive search: matrix ≠ fresh gaps of (sampled game, set)", ctx, key="search:sample")
-        except Exception as e:
-            res.violation(f"sample_exploitabilities_of_action_sequences raised {type(e).__name__}", ctx, key="search:raised")
         script.add(f"srch gt drop {gt}", "ok")
 
     # ---- the chunk partition for the (length, processes) pairs that arose
@@ -653,6 +686,11 @@ def run_c12(tier, budget, rnd) -> StreamResult:
     # numpy generator: handled separately below, under its own key.)
     gens_cont = ["noisy_factory", "xos", "noisy_factory_square", "noisy_factory_exp"]
     gens_disc = ["factory", "graph_cycle", "xos_one"]
+    # seed-respecting random-GRAPH generators (networkx graph drawn from the generator they are given): discrete, so
+    # two repetitions may coincide by chance (pair collision probability at n = 5: graph_random 0.0013,
+    # graph_ws_connected 0.0099); their findings are reported under `evaluate:seed-not-respected`, never under the
+    # key of the known `graph` / `graph_<distribution>` weight-matrix family
+    gens_graph_seeded = ["graph_random", "graph_ws_connected", "graph_internet", "graph_geographical_treshold"]
     A_cases = []
     for solver in ("greedy", "largest", "random"):
         for gi, gen in enumerate(gens_cont[:2] + gens_disc[:1] if quick else gens_cont + gens_disc):
@@ -661,6 +699,10 @@ def run_c12(tier, budget, rnd) -> StreamResult:
     A_cases.sort(key=lambda c: c[1] in gens_disc)        # continuous generators first
     A_cases.insert(3, ("random", "xos_one"))   # deterministic generator: isolates the solver's own RNG
     A_cases.append(("greedy", "graph"))
+    A_cases.append(("greedy", "graph_random"))            # deterministic solvers: everything is a function of the seed
+    A_cases.append(("largest", "graph_ws_connected"))
+    if not quick:
+        A_cases += [("largest", "graph_random"), ("greedy", "graph_ws_connected")]
     for ci, (solver, gen) in enumerate(A_cases * (1 if quick else 3)):
         if not budget.ok():
             res.notes.append("budget exhausted in the ModelInstance cases")
@@ -673,9 +715,13 @@ def run_c12(tier, budget, rnd) -> StreamResult:
         gapname = ["exploitability", "l1_norm", "linf_norm"][ci % 3]
         plist = procs_list if ci < 3 or not quick else [1, 2, 5]
         unseeded = gen == "graph"
-        rng_key = "evaluate:unseeded-module-generator" if unseeded else "evaluate:shared-generator-rng"
+        seedgraph = gen in gens_graph_seeded
+        rng_key = "evaluate:unseeded-module-generator" if unseeded else \
+            "evaluate:seed-not-respected" if seedgraph else "evaluate:shared-generator-rng"
         if unseeded:
             n, reps, plist = 4, 8, [1, 2, 3]
+        if seedgraph:
+            n, reps, plist = 5, 8, [1, 2] if quick else [1, 2, 3, 5]
         runs = {}
         for procs in plist:
             if not budget.ok():
@@ -699,8 +745,9 @@ def run_c12(tier, budget, rnd) -> StreamResult:
                 for _attempt in range(4):
                     e, a, hidden = one_run(make, lambda: SOLVERS[solver](make.inst), reps, limit, procs, gapname)
                     # the unseeded family is only judged on runs in which at least two workers took tasks
-                    if not unseeded or procs == 1 or len(set(one_run.pids)) >= 2:
-                        break
+                    if not (unseeded or seedgraph) or procs == 1 or len(set(one_run.pids)) >= 2:
+                        if not seedgraph or procs == 1 or sorted(map(one_run.pids.count, set(one_run.pids)))[-2] >= 3:
+                            break
             except Exception as ex:
                 res.violation(f"evaluate() raised {type(ex).__name__}: {ex}", ctx, key="evaluate:raised")
                 continue
@@ -728,9 +775,48 @@ def run_c12(tier, budget, rnd) -> StreamResult:
                 res.nontrivial.add((gen, seed, solver, reps, limit, procs))
             if procs in (1, 2):
                 evalone_lines(ctx, n, cls, gapname, limit, e, a, hidden)
-            # independence: a continuous generator never yields the same game twice
             hs = [tuple(h) for h in hidden if h is not None]
-            if gen not in gens_disc and len(set(hs)) != len(hs):
+            if procs == 1 and len(hs) == reps and not unseeded:      # (nothing is determined by the seed for `graph`)
+                # the seed determines the run: a second freshly built ModelInstance + solver with the same seed, evaluated
+                # in this very process, must see the same hidden games and return the same matrices
+                try:
+                    e2, a2, hidden2 = one_run(make, lambda: SOLVERS[solver](make.inst), reps, limit, procs, gapname)
+                except Exception as ex:
+                    res.violation(f"evaluate() raised {type(ex).__name__}: {ex}", ctx, key="evaluate:raised")
+                    e2 = None
+                if e2 is not None:
+                    res.evaluations += reps
+                    res.count("A:same-seed-rerun")
+                    c2 = dict(ctx, processes=[1, 1])
+                    if hidden2 != hidden:
+                        first = next(j for j in range(reps) if hidden2[j] != hidden[j])
+                        res.violation("two runs with the same seed (two freshly built ModelInstances, 1 process) were evaluated on "
+                                      "different hidden games: the seed does not determine the games of the repetitions",
+                                      dict(c2, repetition=first, first_run=hidden[first], second_run=hidden2[first]),
+                                      key="evaluate:seed-not-respected")
+                    elif not (np.array_equal(e, e2) and np.array_equal(a, a2)):
+                        res.violation("two runs with the same seed (1 process) saw the same hidden games but returned different "
+                                      "matrices", dict(c2, actions=[a, a2]), key="evaluate:rerun-differs")
+            if seedgraph and procs > 1 and len(hs) == reps:
+                # replay of one worker by another: every worker handles its repetitions in increasing order; two workers
+                # whose hidden games coincide position by position on ≥ 3 repetitions replay one random stream
+                # (chance under independent draws ≤ 0.0099³ ≈ 1e-6)
+                per_worker = {}
+                for j, pid in enumerate(one_run.pids):
+                    per_worker.setdefault(pid, []).append(j)
+                ws = sorted(per_worker.values())
+                res.count(f"A:workers-with-tasks:{len(ws)}")
+                for x, y in itertools.combinations(ws, 2):
+                    m = min(len(x), len(y))
+                    if m >= 3 and all(hs[x[i]] == hs[y[i]] for i in range(m)):
+                        res.violation("distinct repetitions were evaluated on the same hidden games: two worker processes replay "
+                                      "one another's sequence of hidden games (the generator does not draw from the instance's "
+                                      "seeded per-environment stream)",
+                                      dict(ctx, repetitions_of_worker_a=x, repetitions_of_worker_b=y, distinct_games=len(set(hs))),
+                                      key=rng_key)
+                        break
+            # independence: a continuous generator never yields the same game twice
+            if gen not in gens_disc and not seedgraph and len(set(hs)) != len(hs):
                 first = next(j for j in range(len(hs)) if hs[j] in hs[:j])
                 res.violation("distinct repetitions were evaluated on the same hidden game (replay of one another)",
                               dict(ctx, repetition=first, same_as=hs.index(hs[first]), distinct_games=len(set(hs))),
